@@ -1423,8 +1423,9 @@ fn execute_multi_thread_files_linewise(mut stdout: io::StdoutLock, args: &Opts) 
 		write!(stdout, "{json}").ok();
 		return
 	}
-	// Write back to file
-	for (path, mut lines) in per_file {
+	// Write back to file, in the order the files were given (a file without lines has no entry)
+	for path in &args.files {
+		let mut lines = per_file.remove(path).unwrap_or_default();
 		lines.sort_by_key(|(line_no,_)| *line_no); // Sort lines
 		let output_final = lines.into_iter()
 			.map(|(_,line)| line)
